@@ -102,6 +102,15 @@ def exists_before_create(ct, rep, rule="exists-before-create"):
                     elif key not in seen:
                         rep.ok(rule, f"{fq}: `{how}` on `{p}` is reached only after `{p}.exists()` was false; when it exists FileExistsError is raised", nontrivial=True)
                 seen.add(key)
+        # nothing in new / copy may delete, rename or rewrite a file: a refusal (and a failed copy) must leave an existing target as it was
+        for c in [x for x in ast.walk(f.node) if isinstance(x, ast.Call)]:
+            nm = norm(c.func)
+            at = c.func.attr if isinstance(c.func, ast.Attribute) else None
+            if nm in ("os.remove", "os.unlink", "os.rename", "os.replace", "os.rmdir", "os.truncate", "shutil.move", "shutil.rmtree") \
+                    or (at in ("unlink", "rename", "rmdir", "write_bytes", "write_text", "touch") and not isinstance(c.func.value, ast.Constant)) \
+                    or (at == "replace" and len(c.args) == 1 and isinstance(c.func.value, ast.Name) and "path" in c.func.value.id.lower()):
+                rep.fail(rule, ct.mod.path.name, fq, c, f"`{norm(c)[:60]}` in {fq}: creating / copying must never delete, rename or rewrite an existing file (not even while refusing or cleaning up)",
+                         construct=f"{fq} destructive call {nm}")
         if not found:
             # definite when nothing the function calls could create a file: only path construction / existence tests /
             # exception and Tdf constructors are left
@@ -160,8 +169,15 @@ def open_checks(ct, cd, rep, rule="open-checks"):
             seen_raw = True
             sig_raw = t
         elif isinstance(t, GuardFail) and seen_raw and not seen_guard:
-            c = norm(t.cond).replace(" ", "")
-            if "SIGNATURE" in c and "!=" in c:
+            # the refusal condition is the plain inequality of the bytes read and the signature constant (whole-value comparison:
+            # no element-wise reduction, no partial slice, no call that could weaken it)
+            from ..facts import equality_fact
+            ef = equality_fact(t.cond, True)
+            while ef is None and isinstance(t.cond, ast.UnaryOp) and isinstance(t.cond.op, ast.Not):
+                ef = equality_fact(t.cond.operand, False)
+                break
+            if ef is not None and not ef[2] and not any(isinstance(x, (ast.Call, ast.Subscript)) for side in ef[:2] for x in ast.walk(side)) \
+                    and any("SIGNATURE" in norm(side) or (isinstance(side, ast.Constant) and isinstance(side.value, bytes) and len(side.value) == 16) for side in ef[:2]):
                 seen_guard = True
         elif isinstance(t, Field) and t.role == "data":
             okk = seen_raw and seen_guard
